@@ -63,7 +63,9 @@ class MieLens(ScatteringTheory):
         """
         super(MieLens, self).__init__()
         self.lens_angle = lens_angle
-        self.calculator_accuracy_kwargs = calculator_accuracy_kwargs
+        # (a dictionary of its own: not the shared default, nor the
+        # caller's)
+        self.calculator_accuracy_kwargs = dict(calculator_accuracy_kwargs)
 
     def can_handle(self, scatterer):
         return isinstance(scatterer, Sphere)
